@@ -19,15 +19,15 @@ import (
 )
 
 type CLIRun struct {
-	Bin       string
-	Args      []string
-	StdinMode string // "null" (default, character device), "pipe", "file"
-	Stdin     []byte
-	Env       []string // extra environment
-	Dir       string
-	TmpDir    string
-	Timeout   time.Duration
-	StdoutTo  string // "" = capture; path = open that path for writing (e.g. /dev/full)
+	Bin        string
+	Args       []string
+	StdinMode  string // "null" (default, character device), "pipe", "file"
+	Stdin      []byte
+	Env        []string // extra environment
+	Dir        string
+	TmpDir     string
+	Timeout    time.Duration
+	StdoutTo   string   // "" = capture; path = open that path for writing (e.g. /dev/full)
 	StdoutFile *os.File // if set, the child writes its stdout there
 }
 
